@@ -85,6 +85,9 @@ TIE_FUNCS = {
                             "LeanString.try_reserve", "Repr.push_str", "Repr.reserve"],
     "LSProofs.Gen.Collect": ["LeanString.from_iter_char", "LeanString.from_iter_str", "LeanString.from_iter_string", "LeanString.new",
                              "LeanString.drop", "LeanString.extend_str", "LeanString.push", "Repr.with_capacity", "Repr.new"],
+    "LSProofs.Gen.Decode": ["LeanString.from_utf8", "LeanString.from_utf8_lossy", "LeanString.from_utf16", "LeanString.with_capacity",
+                            "LeanString.try_with_capacity", "LeanString.push", "LeanString.push_str", "LeanString.drop",
+                            "LeanString.from_str_ref", "Repr.from_str", "Repr.with_capacity"],
     "LSProofs.Gen.CloneDrop": ["LeanString.clone", "LeanString.clone_from", "LeanString.drop", "Repr.make_shallow_clone",
                                "Repr.replace_inner", "Repr.new"],
     "LSProofs.Gen.StepG": ["Repr.new", "Repr.from_str", "Repr.with_capacity", "Repr.replace_inner", "Repr.set_len", "Repr.truncate_unchecked",
@@ -97,7 +100,7 @@ TIE_FUNCS = {
                           "Repr.make_shallow_clone"],
 }
 TIES = {
-    "C01": T("Ctor", "Readers", "Release", "SetLen", "Reserve", "Ensure", "Shrink", "Clone", "Clear", "PushStr", "InsertStr", "PopRemove", "Good", "Wrappers", "Panicking", "Extend", "Collect", "CloneDrop", "StepG") + ["LSProofs.Props.C01G"],
+    "C01": T("Ctor", "Readers", "Release", "SetLen", "Reserve", "Ensure", "Shrink", "Clone", "Clear", "PushStr", "InsertStr", "PopRemove", "Good", "Wrappers", "Panicking", "Extend", "Collect", "Decode", "CloneDrop", "StepG") + ["LSProofs.Props.C01G"],
     "C02": T("Reserve", "Ensure", "Shrink", "Clear", "SetLen", "StepG"),
     "C03": T("Release", "Clone", "CloneDrop", "Collect", "Reserve", "Ensure", "Shrink", "StepG"),
     "C05": T("Reserve", "Ensure", "Shrink", "SetLen", "Ctor", "PushStr", "InsertStr", "PopRemove", "Wrappers", "Panicking", "Extend", "Collect"),
@@ -109,6 +112,7 @@ TIES = {
     "C11": T("Readers", "Ctor", "Reserve", "PushStr", "InsertStr", "Wrappers"),
     "C12": T("Reserve"),
     "C13": T("Shrink"),
+    "C16": T("Decode"),
     "C18": T("Extend", "Collect"),
     "C20": T("Kind"),
 }
